@@ -11,6 +11,7 @@ ap.add_argument("--props", default=None)
 ap.add_argument("--tier", default="quick")
 ap.add_argument("--src", default=None)
 ap.add_argument("--skip-confirm", action="store_true")
+ap.add_argument("--scratch", action="store_true", help="evaluate against a scratch worktree (ESRV_REPO) instead of /repo itself: /repo stays free for other runs")
 a = ap.parse_args()
 src = a.src or "/tmp/seed_%s/%s" % (a.prop, a.variant)
 wt = "/tmp/wt_%s" % a.prop
@@ -44,25 +45,42 @@ if not a.skip_confirm:
     meta["confirmed"] = (rc0 == 0 and rc1 != 0 and "117 passed" in outt)
     meta["demo_patched_tail"] = out1[-600:]
 props = (a.props.split(",") if a.props else [a.prop])
-assert sh("git status --porcelain", "/repo")[1].strip() == "", "/repo not clean"
+if a.scratch:
+    # same tree as /repo's HEAD (checked below), in its own worktree; the checks read it through ESRV_REPO and write their evidence / replay files to ESRV_OUT
+    target = "/tmp/evalrepo_%s" % sid
+    sh("git -C /repo worktree remove --force %s" % target)
+    rc, o = sh("git -C /repo worktree add --detach %s HEAD" % target)
+    assert rc == 0, o
+    outdir = "/tmp/evalout_%s" % sid
+    shutil.rmtree(outdir, ignore_errors=True)
+    os.makedirs(outdir)
+    envp = "ESRV_REPO=%s ESRV_OUT=%s " % (target, outdir)
+else:
+    target, envp = "/repo", ""
+assert sh("git status --porcelain", target)[1].strip() == "", "%s not clean" % target
 # evidence files written while the patch is applied must not survive: they are restored afterwards
 evbak = "/tmp/seed_eval_evidence_%d" % os.getpid()
-shutil.copytree("/verif/evidence", evbak)
-rc, o = sh("git apply %s" % patch, "/repo")
+if not a.scratch:
+    shutil.copytree("/verif/evidence", evbak)
+rc, o = sh("git apply %s" % patch, target)
 assert rc == 0, o
 res = {}
 try:
     for p in props:
         t = time.time()
-        rc, out = sh("./bin/check %s --tier %s" % (p, a.tier), "/verif", timeout=5400)
+        rc, out = sh(envp + "./bin/check %s --tier %s" % (p, a.tier), "/verif", timeout=5400)
         lines = [l for l in out.splitlines() if l.startswith("VIOLATION") or l.startswith("  what:") or l.startswith("CHECKER-ERROR") or " tier=" in l]
         res[p] = {"exit": rc, "lines": lines[:8], "wall_s": round(time.time() - t, 1)}
         print(p, "exit", rc, "\n   " + "\n   ".join(l[:300] for l in lines[:6]))
 finally:
-    sh("git checkout -- . && git clean -fdq esr", "/repo")
-    for f in os.listdir(evbak):
-        shutil.copy(os.path.join(evbak, f), os.path.join("/verif/evidence", f))
-    shutil.rmtree(evbak, ignore_errors=True)
+    if a.scratch:
+        sh("git -C /repo worktree remove --force %s" % target)
+        shutil.rmtree(outdir, ignore_errors=True)
+    else:
+        sh("git checkout -- . && git clean -fdq esr", "/repo")
+        for f in os.listdir(evbak):
+            shutil.copy(os.path.join(evbak, f), os.path.join("/verif/evidence", f))
+        shutil.rmtree(evbak, ignore_errors=True)
 assert sh("git status --porcelain", "/repo")[1].strip() == "", "/repo not clean after revert"
 meta["checks"] = res
 meta["caught_by"] = [p for p, r in res.items() if r["exit"] == 1]
